@@ -38,7 +38,7 @@ ASSUMPTIONS = [
     "removing the last key of a section is hand-edited as deleting the line and the then-empty section header",
     "values containing line continuations are not used for --list-items comparisons",
 ]
-REQUIRED = {"valid": 80, "invalid": 30, "op:override": 60, "op:remove": 40, "op:add": 40, "whitespace_key": 40,
+REQUIRED = {"same_key_two_sections": 4, "valid": 80, "invalid": 30, "op:override": 60, "op:remove": 40, "op:add": 40, "whitespace_key": 40,
             "removes_last_key": 5, "repeated_override": 10, "route:ConfigParser": 30, "route:make_config_parser": 30,
             "section:Table-Form": 5, "section:Species": 5, "listing": 40}
 
@@ -60,7 +60,7 @@ def _ws(draw, key):
 
 
 @st.composite
-def _case(draw, targets=None, invalid=False, repeat=False):
+def _case(draw, targets=None, invalid=False, repeat=False, cross=False):
     m = draw(gen.any_model(targets, 1, 3, depth=0))
     secs = anymodel.sections_of(m)
     nops = draw(st.integers(1, 5))
@@ -140,6 +140,21 @@ def _case(draw, targets=None, invalid=False, repeat=False):
                 bad = {"op": "override", "section": "Nowhere", "key0": k, "key": k, "value": v}
             bad["invalid"] = why
             ops.insert(draw(st.integers(0, len(ops))), bad)
+    if cross:
+        # the same key in two different sections (an element label in [EAM-Embed] and [EAM-Density]):
+        # two options that must not be confused with each other
+        emb = [(n, k, v) for n, k, v in keys if n == "EAM-Embed"]
+        den = dict((k, v) for n, k, v in keys if n == "EAM-Density")
+        both = [(k, v) for _, k, v in emb if k in den]
+        if both:
+            k, v = draw(st.sampled_from(both))
+            ops[:] = [o for o in ops if not (o["key0"] == k and o["section"] in ("EAM-Embed", "EAM-Density"))]
+            ops.append({"op": "override", "section": "EAM-Embed", "key0": k, "key": k, "value": "as.polynomial 0 %d" % draw(st.integers(1, 9))})
+            second = draw(st.sampled_from(["override", "remove"]))
+            if second == "override" or len(den) < 2:
+                ops.append({"op": "override", "section": "EAM-Density", "key0": k, "key": _ws(draw, k), "value": "as.constant %d" % draw(st.integers(1, 9))})
+            else:
+                ops.append({"op": "remove", "section": "EAM-Density", "key0": k, "key": k})
     if repeat:
         ov = [o for o in ops if o["op"] == "override" and o["section"] in ("Pair", "EAM-Embed", "EAM-Density")]
         if ov:
@@ -151,7 +166,7 @@ def _case(draw, targets=None, invalid=False, repeat=False):
     if not ops:
         n, k, v = draw(st.sampled_from(editable))
         ops.append({"op": "override", "section": n, "key0": k, "key": _ws(draw, k), "value": v})
-    route = draw(st.sampled_from(["ConfigParser", "make_config_parser"]))
+    route = draw(st.sampled_from(["ConfigParser", "make_config_parser"])) if not cross else "make_config_parser"
     return {"model": m, "ops": ops, "route": route}
 
 
@@ -161,7 +176,8 @@ def strategy(tier):
 
 def strata(tier):
     return [("valid:pair", _case(gen.PAIR_TARGETS), 3), ("valid:eam", _case(sorted(gen.EAM_TARGETS)), 4),
-            ("invalid", _case(None, True), 3), ("repeated", _case(None, False, True), 2)]
+            ("invalid", _case(None, True), 3), ("repeated", _case(None, False, True), 2),
+            ("same_key_two_sections", _case(["setfl", "DL_POLY_EAM", "excel_eam", "eam_adp", "lammps_eam_alloy"], False, False, True), 2)]
 
 
 def budget(tier):
@@ -276,6 +292,9 @@ def check_case(case):
         cls.append("whitespace_key")
     if stats["removes_last_key"]:
         cls.append("removes_last_key")
+    if len(set(o["section"] for o in ops)) < len(set((o["section"], o["key0"]) for o in ops)) and \
+            len(set(o["key0"] for o in ops)) < len(set((o["section"], o["key0"]) for o in ops)):
+        cls.append("same_key_two_sections")
     ovk = [(o["section"], o["key0"]) for o in ops if o["op"] == "override"]
     if len(set(ovk)) < len(ovk):
         cls.append("repeated_override")
